@@ -171,6 +171,48 @@ theorem value_never_panics (std : Stdlib) (s : String) (cfg : ParseCfg) :
     | .fuel, _ => rfl
     | .panic _, hp => simp [isPanic] at hp
 
+/-- **IgnoreCommas**: the top-level loop returns exactly one value - the first one - or fails; no comma builds a
+list (the repaired D49: before, a comma after a quoted string, an array or an object still did) -/
+theorem ignoreCommas_single (std : Stdlib) (cfg : ParseCfg) (hc : cfg.ignoreCommas = true) :
+    ∀ n inp vs, topLoop std cfg n [] inp = .ok vs → vs.length = 1 := by
+  intro n inp vs h
+  cases n with
+  | zero => simp [topLoop] at h
+  | succ n =>
+    simp only [topLoop, hc, if_true, Bool.not_true, Bool.and_false] at h
+    cases hv : parseValue std cfg (n + 1) [] inp with
+    | ok p =>
+      obtain ⟨v, r1⟩ := p
+      rw [hv] at h
+      simp only [Bind.bind, Outcome.bind] at h
+      split at h
+      · simp only [List.nil_append, Outcome.ok.injEq] at h
+        rw [← h]; rfl
+      · simp [raiseRaw] at h
+    | err e => rw [hv] at h; simp [Bind.bind, Outcome.bind] at h
+    | panic e => rw [hv] at h; simp [Bind.bind, Outcome.bind] at h
+    | fuel => rw [hv] at h; simp [Bind.bind, Outcome.bind] at h
+
+/-- hence under IgnoreCommas what `ValueWithConfig` returns is the value `parseValue` read from the start of the
+text, never a list assembled from several values -/
+theorem ignoreCommas_value_is_first (std : Stdlib) (s : String) (cfg : ParseCfg) (hc : cfg.ignoreCommas = true)
+    (d : Data) (h : valueWithConfig std s cfg = .ok d) :
+    ∃ n, topLoop std cfg n [] (trimSpace s.toList) = .ok [d] := by
+  unfold valueWithConfig at h
+  split at h
+  · simp [raiseRaw] at h
+  · refine ⟨4 * (trimSpace s.toList).length + 8, ?_⟩
+    have hl := ignoreCommas_single std cfg hc (4 * (trimSpace s.toList).length + 8) (trimSpace s.toList)
+    simp only [] at h
+    generalize topLoop std cfg (4 * (trimSpace s.toList).length + 8) [] (trimSpace s.toList) = t at h hl
+    match t, h, hl with
+    | .ok [], _, hl => simpa using hl [] rfl
+    | .ok [v], h, _ => simp only [Outcome.ok.injEq] at h; rw [h]
+    | .ok (_ :: _ :: _), _, hl => simpa using hl _ rfl
+    | .err _, h, _ => simp at h
+    | .fuel, h, _ => simp at h
+    | .panic _, h, _ => simp at h
+
 /-- a configuration with objects enabled but arrays disabled is rejected -/
 theorem invalid_config_rejected (std : Stdlib) (s : String) (cfg : ParseCfg)
     (h : cfg.array = false ∧ cfg.object = true) : (valueWithConfig std s cfg).isErr = true := by
